@@ -365,7 +365,7 @@ def opt_instance(c, spec, rng, solve=False):
         for m in range(spec["E"]):
             for di, d in enumerate(spec["delays"]):
                 y, delayed, inc, tv = oracle_delay(pr, info, m, results[m], d)
-                c.count(("opt-solution", d["tau_kind"], spec["hkind"], inc, info.mode(info.canon(d["out"])[0])))
+                c.count(("opt-solution", d["tau_kind"], spec["hkind"], inc, info.mode(info.canon(d["out"])[0])), n=len(y))
                 if not np.allclose(y, delayed, rtol=1e-6, atol=1e-6):
                     c.fail("at the solution the delayed variable is not the delayed expression",
                            {"spec": spec, "member": m, "delay": d}, {"y": y, "delayed": delayed})
@@ -443,7 +443,7 @@ def opt_judge(c, item, outs):
                 break
             used.add(hit[0])
     c.count(("opt", d["tau_kind"], spec["hkind"], bool(inc_o), info.mode(oc), info.canon(d["out"])[1],
-             len(info.times(oc)) != n, spec["E"], info.t0 != 0))
+             len(info.times(oc)) != n, spec["E"], info.t0 != 0), n=n * (len(item["xs"]) + 1))  # rows judged
     c.hit("opt:tau-" + d["tau_kind"])
     c.hit("opt:hist-" + spec["hkind"])
     c.hit("opt:incomplete" if inc_o else "opt:complete")
@@ -580,7 +580,7 @@ def sim_case(c, rng, folder, ci):
         Y = np.array([r[yname] for r in rec])
         D = np.array(D)
         case = {"model": par, "dt": dt, "tau": tt, "var": yname, "T": T, "D": D, "Y": Y, "u": us}
-        c.count(("sim", kind, dt, round(tt / dt, 3), yname))
+        c.count(("sim", kind, dt, round(tt / dt, 3), yname), n=len(T))  # steps judged
         c.hit("sim:tau-" + ("zero" if tt == 0 else "int" if (tt / dt) == int(tt / dt) else "frac"))
         c.sample({"sim": {"dt": dt, "tau": tt, "Y": Y, "D": D}}, limit=7)
         # oracle: y(t) = D(t - tau), linear between steps, the t0 value before t0
